@@ -270,8 +270,10 @@ def run(ctx):
     coverage = {
         "evaluations": tally["value"] + tally["panic"] + ctally["value"] + ctally["panic"],
         "distinct_nontrivial": tally["value"] + ctally["value"],
-        "rule": RULE + ". Second stream: programs of the core fragment (the one theorem C01_core covers) run through the circuit and through "
-                "the bit-level model Bit.bitStmts; bits, panic flag and reason must agree exactly.",
+        "rule": RULE + ". Second stream: programs of the fragment theorem C01_core covers (12 feature mixes: scalars only; with assignments, "
+                "shadowing, match, helper functions; with tuples, arrays, structs, enums, indexing, loops, destructuring patterns, "
+                "assignment through accessors, == on aggregates) run through the circuit and through the model of compile.rs "
+                "(Bit.bitBody); bits, panic flag and reason must agree exactly and no program may be outside the model.",
         "distribution": {"runs": tally, "core_fragment_runs": ctally, "generator": stats},
         "samples": [{"src": cases[0]["src"]}, {"src": cases[1]["src"]}],
     }
